@@ -193,6 +193,28 @@ static string exec(const vector<string>& f) {
     result_t r = m->prepareMaster((size_t)atoi(f[5].c_str()), qq, zz, UI_FIELD_SEPARATOR, &in, &ms);
     return "p\t" + std::to_string(r) + "\t" + hex(ms.data(), ms.size()) + "\t" + std::to_string(m->getCount());
   }
+  if (op == "PREPS") {
+    // PREPS map circuit name isWrite input -> P code slavehex   (Message::prepareSlave)
+    Message* m = mm->find(unesc(f[2]), unesc(f[3]), "*", f[4] == "1", false);
+    if (!m) return "P\t-999\t";
+    std::istringstream in(unesc(f[5]));
+    SlaveSymbolString ss;
+    result_t r = m->prepareSlave(&in, &ss);
+    return "P\t" + std::to_string(r) + "\t" + hex(ss.data(), ss.size());
+  }
+  if (op == "STOREP") {
+    // STOREP map circuit name isWrite index masterhex slavehex -> s code   (store one chain part by index)
+    Message* m = mm->find(unesc(f[2]), unesc(f[3]), "*", f[4] == "1", false);
+    if (!m) return "s\t-999";
+    MasterSymbolString ms; SlaveSymbolString ss;
+    bool withMaster = f[6] != "-";
+    if (withMaster) ms.parseHex(f[6]);
+    ss.parseHex(f[7]);
+    size_t idx = (size_t)atoi(f[5].c_str());
+    result_t r = withMaster ? m->storeLastData(idx, ms) : RESULT_OK;
+    if (r >= RESULT_OK) r = m->storeLastData(idx, ss);
+    return "s\t" + std::to_string(r);
+  }
   if (op == "STORE") {
     Message* m = byName(mm, f, 2);
     if (!m) return "s\t-999";
